@@ -325,6 +325,7 @@ class Runner(object):
         self.alloc = []     # handles allocated by each executed op
         self.stats = {}
         self.notes = set()
+        self.blobs = []     # pickled states: (bytes, class, row id, raw python id, attribute snapshot, row at that time)
         self.reset()
 
     # ---- plumbing
@@ -380,7 +381,8 @@ class Runner(object):
             out = 'ok'
         except Exception as ex:  # every exception of the real code is an observable outcome
             nm = sqlo.exc_name(ex)
-            out = {'Duplicate': 'DbError', 'Operational': 'DbError', 'DbIntegrity': 'DbError'}.get(nm, nm)
+            out = {'Duplicate': 'DbError', 'Operational': 'DbError', 'DbIntegrity': 'DbError',
+                   'Other(ValueError)': 'ValueError'}.get(nm, nm)
         finally:
             self.conn.fail_update = False
         return out, val, list(self.conn.stmts)
@@ -857,6 +859,26 @@ class Runner(object):
             self.flushed(hd, h)
             if CLASSES[hd.k][1] and (hd.obj.sqlmeta.dirty or hd.obj._SO_createValues):
                 self.fail('pickle-left-pending', hd.k, 'after pickling dirty=%r pending=%r' % (hd.obj.sqlmeta.dirty, hd.obj._SO_createValues))
+            d = hd.obj.__dict__
+            snap = [(c, d['_SO_val_' + ATTRS[hd.k][c]]) for c in range(CLASSES[hd.k][3]) if ('_SO_val_' + ATTRS[hd.k][c]) in d]
+            self.blobs.append((blob, hd.k, hd.rid, hd.obj.id, snap, self.rawrow(hd.k, hd.rid)))
+
+    def op_unpickle(self, b):
+        """pickle.loads of an earlier pickled state (works when no instance of the row is in the cache)"""
+        if b >= len(self.blobs):
+            return False
+        blob, k, rid, idraw, snap, row_then = self.blobs[b]
+        clash = self.conn.cache.tryGet(idraw, self.e['classes'][k]) is not None
+        out, obj, stmts = self.outcome(lambda: pickle.loads(blob))
+        st = self.canon(stmts)
+        line = 'unpickle %%d %d %d %d %s' % (k, rid, int(clash), ' '.join('%d=%s' % (c, sv_py(k, c, v)) for c, v in snap))
+        if out != 'ok':
+            self.emit((line % self.nexth).strip(), out, st)
+            return
+        h = self.adopt(obj, k, rid, line.strip(), st)
+        hd = self.held[h]
+        # the copy shows what the row held when it was pickled; nothing was ever assigned to it
+        hd.tainted = (self.rawrow(k, rid) is None) or (self.rawrow(k, rid) != row_then)
 
     def op_drop(self, h):
         hd = self.need(h)
@@ -934,6 +956,11 @@ class Runner(object):
             if bool(o.sqlmeta.dirty) != bool(hd.pend):
                 self.fail('dirty-flag-vs-pending', k, '%s: instance %d dirty=%r, unwritten assignments %r'
                           % (where, h, o.sqlmeta.dirty, hd.pend))
+            # ... and what the object keeps as pending is exactly the columns assigned and not yet written
+            pcols = sorted(ATTRS[k].index(nm) for nm in o.__dict__.get('_SO_createValues', {}))
+            if pcols != sorted(hd.pend):
+                self.fail('pending-set-vs-assignments', k, '%s: instance %d keeps %r pending, the unwritten assignments are %r'
+                          % (where, h, o.__dict__.get('_SO_createValues'), hd.pend))
             # C05 oracle, non-destructive form: what a read would return from the cache
             if cv and not hd.tainted:
                 for c in range(n):
@@ -1021,6 +1048,10 @@ def gen_op(rng, r, weights):
             return ['select', pick_k()]
         if name in ('expireall',):
             return ['expireall']
+        if name == 'unpickle':
+            if not r.blobs:
+                continue
+            return ['unpickle', rng.randrange(len(r.blobs))]
         if name == 'expireallcls':
             return ['expireallcls', pick_k()]
         if name == 'oobupdate':
@@ -1061,7 +1092,7 @@ def gen_op(rng, r, weights):
 OPS_C05 = (['create'] * 10 + ['get'] * 7 + ['select'] * 6 + ['read'] * 8 + ['setattr'] * 14 + ['set'] * 9 +
            ['syncupdate'] * 4 + ['sync'] * 7 + ['expire'] * 8 + ['expireall'] * 2 + ['expireallcls'] * 1 +
            ['destroy'] * 4 + ['pickle'] * 2 + ['drop'] * 1 + ['oobupdate'] * 4 + ['oobdelete'] * 2 + ['oobinsert'] * 1 +
-           ['deleteby'] * 1 + ['deletemany'] * 2)
+           ['deleteby'] * 1 + ['deletemany'] * 2 + ['unpickle'] * 2)
 W_C05 = {'ops': OPS_C05, 'classes': [0, 0, 0, 0, 1, 1, 2, 2, 3, 4, 4, 5, 5, 6, 7, 7, 8, 8, 9]}
 
 
